@@ -68,12 +68,18 @@ func (m *Request) Marshal() (b []byte, err error) {
 
 // Unmarshal a byte slice into a Reply.
 func (m *Reply) Unmarshal(b []byte) error {
+	if len(b) < 6 {
+		return errors.New("kadmin reply is too short")
+	}
 	m.MessageLength = int(binary.BigEndian.Uint16(b[0:2]))
 	m.Version = int(binary.BigEndian.Uint16(b[2:4]))
 	if m.Version != 1 {
 		return fmt.Errorf("kadmin reply has incorrect protocol version number: %d", m.Version)
 	}
 	m.APREPLength = int(binary.BigEndian.Uint16(b[4:6]))
+	if m.MessageLength > len(b) || 6+m.APREPLength > m.MessageLength {
+		return errors.New("kadmin reply lengths are not consistent with the size of the message")
+	}
 	if m.APREPLength != 0 {
 		err := m.APREP.Unmarshal(b[6 : 6+m.APREPLength])
 		if err != nil {
@@ -92,6 +98,10 @@ func (m *Reply) Unmarshal(b []byte) error {
 }
 
 func parseResponse(b []byte) (c uint16, s string) {
+	if len(b) < 2 {
+		// There is no result code: report a malformed reply (KRB5_KPASSWD_MALFORMED)
+		return 1, ""
+	}
 	c = binary.BigEndian.Uint16(b[0:2])
 	buf := bytes.NewBuffer(b[2:])
 	m := make([]byte, len(b)-2)
